@@ -338,7 +338,12 @@ def _apply_oracles(obs, case, spec, flat, cfg, task, before_cfg, before_task, mo
         e = obs["exc"]
         # keyed by (optimizer, exception type, module of the innermost repository frame): robust against renamed helper
         # functions and moved lines; the function chain is part of the witness text only
-        _v(obs, "C06", {"kind": "exception", "exc": e["exc"], "file": e["func"].split(":")[0]},
+        # (serial = audited runs additionally carry the raising function as `site`: a known finding lists the sites seen in the
+        # audits, so a NEW raise site in the same module is told apart from the recorded one - see report.match_known)
+        k06 = {"kind": "exception", "exc": e["exc"], "file": e["func"].split(":")[0]}
+        if obs.get("mode") == "serial" and ":" in e["func"] and not case.get("prior"):
+            k06["site"] = e["func"].split(":", 1)[1]
+        _v(obs, "C06", k06,
            f"{e['exc']} in {e['func']}: {e['msg'][:160]} via {' > '.join(e['chain'])}")
     if result is None:
         return
